@@ -535,39 +535,54 @@ func checkC18(tier string) *Report {
 			pkt := p.pkt
 			replay := mustJSON(map[string]any{"ops": append(append([]Op{}, pathOps...), Op{Label: p.label, Pkt: &pkt}),
 				"expect": []replayExpect{{Kind: "no_panic", Want: true}, {Kind: "last_success", Want: uint64(p.n) <= uint64(limit) && len(p.pkt.Memo) <= 32768}}})
-			if r.Panic != "" {
-				rep.Violate(Violation{Kind: "probe-panic", Group: p.label, Sig: psig, Replay: replay, What: "probe panicked: " + r.Panic})
-				continue
-			}
-			over := uint64(p.n) > uint64(limit)
 			innerCalled := len(ins[w].Rec.Find("inner.OnRecvPacket")) > 0
+			// the same probe on the APPLICATION's own stack: the administrative history ran through the application's keeper, the
+			// instrumented stand is a second instance of the module over the same stores — whatever a keeper remembers outside the
+			// stores (a cached limit, seed C19h) exists in one of them only, so both are judged, and they must agree
+			rApp := w.Recv(Branch(ctx), p.pkt)
+			rep.Count("probes", 1)
 			if p.n > 0 {
 				rep.Distinct(fmt.Sprintf("limit=%d|%s", limit, p.label))
 			}
-			// The verdicts do not depend on the wording of the refusal: an oversize payload must be refused
-			// before the wrapped application is called; a payload within the limit must be executed whenever
-			// nothing else can refuse it (memo below ICS-20's own cap, route not paused) — which makes "refused
-			// for the size reason" impossible without reading the reason.
-			switch {
-			case over:
-				rep.Outcome("refused-for-size")
-				if r.Success {
-					rep.Violate(Violation{Kind: "oversize-not-refused", Group: p.label, Sig: psig, Replay: replay,
-						What: fmt.Sprintf("passthrough of %d bytes with limit %d was executed (success ack)", p.n, limit)})
+			over := uint64(p.n) > uint64(limit)
+			for _, st := range []struct {
+				name string
+				r    RecvResult
+			}{{"second instance of the module over the same stores", r}, {"the application's own stack", rApp}} {
+				r, psig := st.r, psig+" ["+st.name+"]"
+				if r.Panic != "" {
+					rep.Violate(Violation{Kind: "probe-panic", Group: p.label, Sig: psig, Replay: replay, What: "probe panicked: " + r.Panic})
+					continue
 				}
-				if innerCalled {
-					// where the check sits relative to the wrapped application is not fixed by the property (the
-					// error acknowledgement makes IBC discard whatever the application did): recorded, not judged
-					rep.Outcome("refused-for-size-after-ics20-ran")
+				// The verdicts do not depend on the wording of the refusal: an oversize payload must be refused
+				// before the wrapped application is called; a payload within the limit must be executed whenever
+				// nothing else can refuse it (memo below ICS-20's own cap, route not paused) — which makes "refused
+				// for the size reason" impossible without reading the reason.
+				switch {
+				case over:
+					rep.Outcome("refused-for-size")
+					if r.Success {
+						rep.Violate(Violation{Kind: "oversize-not-refused", Group: p.label, Sig: psig, Replay: replay,
+							What: fmt.Sprintf("passthrough of %d bytes with limit %d was executed (success ack) on %s", p.n, limit, st.name)})
+					}
+					if innerCalled {
+						// where the check sits relative to the wrapped application is not fixed by the property (the
+						// error acknowledgement makes IBC discard whatever the application did): recorded, not judged
+						rep.Outcome("refused-for-size-after-ics20-ran")
+					}
+				case len(p.pkt.Memo) <= 32768 && !(p.route == "cctp" && cctpPaused):
+					rep.Outcome("within-limit-executed")
+					if !r.Success {
+						rep.Violate(Violation{Kind: "within-limit-refused", Group: p.label, Sig: psig, Replay: replay,
+							What: fmt.Sprintf("passthrough of %d bytes with limit %d refused on %s: %s", p.n, limit, st.name, trunc(r.AckErr(), 300))})
+					}
+				default:
+					rep.Outcome("within-limit-refused-by-ics20-memo-length-or-pause")
 				}
-			case len(p.pkt.Memo) <= 32768 && !(p.route == "cctp" && cctpPaused):
-				rep.Outcome("within-limit-executed")
-				if !r.Success {
-					rep.Violate(Violation{Kind: "within-limit-refused", Group: p.label, Sig: psig, Replay: replay,
-						What: fmt.Sprintf("passthrough of %d bytes with limit %d refused: %s", p.n, limit, trunc(r.AckErr(), 300))})
-				}
-			default:
-				rep.Outcome("within-limit-refused-by-ics20-memo-length-or-pause")
+			}
+			if r.Panic == "" && rApp.Panic == "" && r.Success != rApp.Success {
+				rep.Violate(Violation{Kind: "two-instances-over-the-same-stores-disagree", Group: p.label, Sig: psig, Replay: replay,
+					What: fmt.Sprintf("the application's stack answered success=%v, a second instance of the module over the same stores success=%v: the verdict depends on state outside the stores [%s]", rApp.Success, r.Success, psig)})
 			}
 		}
 	}
